@@ -58,7 +58,11 @@ var retrySuccessAt = []int{1, 2, 3, 5, 6, 7, 0} // 0 = never succeeds
 func famRetry(w *World) {
 	w.Grid = time.Millisecond
 	w.NoFault = false
-	total := len(retryPolicies) * ecCount * len(retryMaxAttempts) * len(retrySuccessAt) * 2
+	// how an attempt places its call: through the sub-channel (its peer list selects), by
+	// host:port through the channel on odd attempts, or by selecting from the list itself
+	// and calling the peer
+	const hows = 3
+	total := len(retryPolicies) * ecCount * len(retryMaxAttempts) * len(retrySuccessAt) * 2 * hows
 	if w.cfg.Case == -2 {
 		w.Probes["enum.cases"] = total
 		return
@@ -68,6 +72,8 @@ func famRetry(w *World) {
 		c = scn(total)
 	}
 	x := c
+	how := x % hows
+	x /= hows
 	perAttempt := x%2 == 1
 	x /= 2
 	succAt := retrySuccessAt[x%len(retrySuccessAt)]
@@ -80,10 +86,10 @@ func famRetry(w *World) {
 	if class == ecTimeoutLocal {
 		perAttempt = true
 	}
-	npeers := 1 + c%3
+	npeers := 1 + (c/hows)%3
 	w.drawSchedule(false)
 	w.linkDefaults()
-	w.describe("retry policy=%s class=%s maxAttempts=%d successAt=%d perAttemptTimeout=%v peers=%d", retryPolicyNames[policy], ecNames[class], maxA, succAt, perAttempt, npeers)
+	w.describe("retry policy=%s class=%s maxAttempts=%d successAt=%d perAttemptTimeout=%v peers=%d how=%d", retryPolicyNames[policy], ecNames[class], maxA, succAt, perAttempt, npeers, how)
 	w.eval("C17.case")
 
 	attempts := 0 // attempts that reached a server
@@ -136,6 +142,7 @@ func famRetry(w *World) {
 		})
 	}
 	sc := cli.Ch.GetSubChannel("svc")
+	var allPeers []string
 	for i := 0; i < npeers; i++ {
 		hp := fmt.Sprintf("10.0.2.%d:%d", i+1, 5000+i)
 		if class != ecNetworkRefused {
@@ -146,6 +153,7 @@ func famRetry(w *World) {
 			w.Net.Fired["net.refuse"]++
 		}
 		sc.Peers().Add(hp)
+		allPeers = append(allPeers, hp)
 	}
 	opts := &tchannel.RetryOptions{MaxAttempts: maxA, RetryOn: retryPolicies[policy]}
 	if perAttempt {
@@ -162,7 +170,29 @@ func famRetry(w *World) {
 	var calls []seen
 	err := cli.Ch.RunWithRetry(ctx, func(ctx context.Context, rs *tchannel.RequestState) error {
 		s := seen{attempt: rs.Attempt, prev: sortedKeys(rs.SelectedPeers)}
-		call, err := sc.BeginCall(ctx, "m", &tchannel.CallOptions{RequestState: rs})
+		var call *tchannel.OutboundCall
+		var err error
+		switch {
+		case how == 1 && rs.Attempt%2 == 1:
+			// by host:port: the first peer this request has not tried yet
+			hp := allPeers[0]
+			for _, p := range allPeers {
+				if _, tried := rs.SelectedPeers[p]; !tried {
+					hp = p
+					break
+				}
+			}
+			call, err = cli.Ch.BeginCall(ctx, hp, "svc", "m", &tchannel.CallOptions{RequestState: rs})
+			w.probe("C17.attempt-by-hostport")
+		case how == 2:
+			var p *tchannel.Peer
+			if p, err = sc.Peers().Get(rs.PrevSelectedPeers()); err == nil {
+				call, err = p.BeginCall(ctx, "svc", "m", &tchannel.CallOptions{RequestState: rs})
+			}
+			w.probe("C17.attempt-by-own-selection")
+		default:
+			call, err = sc.BeginCall(ctx, "m", &tchannel.CallOptions{RequestState: rs})
+		}
 		if err == nil {
 			s.peer = call.RemotePeer().HostPort
 			err = writeArg(call.Arg2Writer())([]byte("a2"), 0)
